@@ -41,11 +41,11 @@ void harness(void)
 	/* expected text, built root-first */
 	for (k = 1; k <= DEPTH; ++k) {
 		want[o++] = '/';
-		const char *nm = (const char *)g_nodes[k].name;
+		const char *nm = (const char *)TN(k)->name;
 
 		for (i = 0; nm[i] != '\0'; ++i)
 			want[o++] = nm[i];
-		if (!spec_component_ok((const char *)g_nodes[k].name))
+		if (!spec_component_ok((const char *)TN(k)->name))
 			all_ok = false;
 	}
 	if (DEPTH == 0)
@@ -62,7 +62,7 @@ void harness(void)
 	if (ret == 0) {
 		VERIF_ASSERT(out != NULL && out != (char *)(uintptr_t)1,
 			     "C06.get_path.components");
-		VERIF_ASSERT(all_ok && g_nodes[0].name[0] == '\0',
+		VERIF_ASSERT(all_ok && TN(0)->name[0] == '\0',
 			     "C06.get_path.components");
 		/* copy out of the heap object first (symbolic-size objects
 		 * are expensive to reason about), bounded by the longest
@@ -94,7 +94,7 @@ void harness(void)
 	} else {
 		VERIF_ASSERT(out == NULL, "C06.get_path.fail_null");
 		VERIF_ASSERT(ret == SQFS_ERROR_ALLOC || !all_ok ||
-			     g_nodes[0].name[0] != '\0',
+			     TN(0)->name[0] != '\0',
 			     "C06.get_path.complete");
 	}
 }
